@@ -34,12 +34,12 @@ use crate::builders::{
   BusinessKnowledgeModelEvaluator, DecisionEvaluator, DecisionServiceEvaluator, InputDataContextEvaluator, InputDataEvaluator, ItemDefinitionContextEvaluator,
   ItemDefinitionEvaluator, ItemDefinitionTypeEvaluator,
 };
-use crate::errors::{err_read_lock_failed, err_write_lock_failed};
+use crate::errors::{err_cyclic_requirements, err_read_lock_failed, err_write_lock_failed};
 use dmntk_common::Result;
 use dmntk_feel::context::FeelContext;
 use dmntk_feel::values::Value;
 use dmntk_feel::{value_null, Name};
-use dmntk_model::model::Definitions;
+use dmntk_model::model::{Definitions, DmnElement};
 use std::collections::HashMap;
 use std::sync::{Arc, RwLock, RwLockReadGuard};
 
@@ -77,6 +77,7 @@ pub struct ModelEvaluator {
 impl ModelEvaluator {
   /// Creates an instance of [ModelEvaluator].
   pub fn new(definitions: &Definitions) -> Result<Arc<Self>> {
+    check_requirements_acyclic(definitions)?;
     let model_evaluator = Arc::new(ModelEvaluator::default());
     model_evaluator
       .input_data_evaluator
@@ -248,4 +249,64 @@ impl ModelEvaluator {
       value_null!()
     }
   }
+}
+
+/// Checks that the requirements between decisions, business knowledge models and decision services
+/// are not cyclic. Evaluation follows these requirements recursively, a cycle would never end.
+fn check_requirements_acyclic(definitions: &Definitions) -> Result<()> {
+  let mut requirements: HashMap<String, Vec<String>> = HashMap::new();
+  for decision in definitions.decisions() {
+    if let Some(id) = decision.id() {
+      let required = requirements.entry(id.clone()).or_default();
+      for information_requirement in decision.information_requirements() {
+        if let Some(href) = information_requirement.required_decision() {
+          required.push(String::from(href));
+        }
+      }
+      for knowledge_requirement in decision.knowledge_requirements() {
+        if let Some(href) = knowledge_requirement.required_knowledge() {
+          required.push(String::from(href));
+        }
+      }
+    }
+  }
+  for business_knowledge_model in definitions.business_knowledge_models() {
+    if let Some(id) = business_knowledge_model.id() {
+      let required = requirements.entry(id.clone()).or_default();
+      for knowledge_requirement in business_knowledge_model.knowledge_requirements() {
+        if let Some(href) = knowledge_requirement.required_knowledge() {
+          required.push(String::from(href));
+        }
+      }
+    }
+  }
+  for decision_service in definitions.decision_services() {
+    if let Some(id) = decision_service.id() {
+      let required = requirements.entry(id.clone()).or_default();
+      for href in decision_service.output_decisions().iter().chain(decision_service.encapsulated_decisions()).chain(decision_service.input_decisions()) {
+        required.push(String::from(href));
+      }
+    }
+  }
+  // depth-first search, states: 1 = being visited, 2 = done
+  fn visit(id: &str, requirements: &HashMap<String, Vec<String>>, states: &mut HashMap<String, u8>) -> Result<()> {
+    match states.get(id) {
+      Some(1) => return Err(err_cyclic_requirements(id)),
+      Some(_) => return Ok(()),
+      None => {}
+    }
+    states.insert(id.to_string(), 1);
+    if let Some(required) = requirements.get(id) {
+      for required_id in required {
+        visit(required_id, requirements, states)?;
+      }
+    }
+    states.insert(id.to_string(), 2);
+    Ok(())
+  }
+  let mut states = HashMap::new();
+  for id in requirements.keys() {
+    visit(id, &requirements, &mut states)?;
+  }
+  Ok(())
 }
